@@ -12,7 +12,7 @@ TECH = "deterministic simulation with fault injection"
 CHECKS = {
  "C01": dict(cat="exploration", sec="5 HashMgrSim",
    text="Seeded search over client interleavings, segmentations, flush placement, context reuse and all 28 (algorithm, family) pairs; every COMPLETE hand-back is compared with an independent reference hash of the accepted segments. Sampling of histories, not proof.",
-   note="Reference hashes (written from the standards, vector-checked at start-up) are trusted; completed messages bounded (mostly <= 8 KiB, rarely 1 MiB; one run in 12 also keeps a never-finished 2^30..2^32-1 byte segment in flight), <= 330 ops per run. Thorough adds 28 endurance runs (one long-lived manager per pair, 20-36 GiB through the flush path).",
+   note="Reference hashes (written from the standards, vector-checked at start-up) are trusted; completed messages bounded (mostly <= 8 KiB, rarely 1 MiB; one run in 12 also keeps a never-finished 2^30..2^32-1 byte segment in flight), <= 330 ops per run. Thorough adds 28 endurance runs (one long-lived manager per pair, 20-36 GiB through the flush path). 20 runs per quick batch fill every lane of the wide managers with a mask of >= 2^31-byte giants and short jobs.",
    tech=TECH + ": HashMgrSim, reference-model oracle per completed job"),
  "C06": dict(cat="exploration", sec="5 HashMgrSim",
    text="Conservation/drain invariants evaluated after every submit/flush of every simulated history (exactly-once hand-back, never PROCESSING, capacity <= lanes, flush NULL iff empty, drain liveness bounded in calls, user_data and buffers untouched).",
@@ -75,7 +75,7 @@ CHECKS = {
    tech=TECH + ": FipsGateSim, enumeration of entry point x fault kind with seeded sequences"),
  "C17": dict(cat="exploration", sec="5 FipsRaceSim",
    text="FIPS_MODE=y build. 1-8 coroutine tasks race through the real check/claim/spin/publish assembly (yield points from hook H4) under seeded uniform, bursty and PCT-style schedules with injected verdicts; history oracle: self-tests entered exactly once by one task, no success return and no kernel entry before the tests finished and passed, identical verdict for every call, bounded completion after the verdict is published.",
-   note="Sequentially consistent interleavings at shared-access granularity, with unlocked read-modify-write instructions at the hooked points split into load and store (two bus cycles); x86-TSO store buffering not modelled. Liveness bounded in scheduling steps under a fair fallback scheduler. fips/self_tests_generic.c (non-x86, not in the x86_64 archive) is simulated as a second implementation with shimmed C11 atomics in 1 run of 4.",
+   note="Real self-tests (1 run in 20) run on a seeded hash family; a task that makes no progress for 10 s of CPU time is cut off and reported. Sequentially consistent interleavings at shared-access granularity, with unlocked read-modify-write instructions at the hooked points split into load and store (two bus cycles); x86-TSO store buffering not modelled. Liveness bounded in scheduling steps under a fair fallback scheduler. fips/self_tests_generic.c (non-x86, not in the x86_64 archive) is simulated as a second implementation with shimmed C11 atomics in 1 run of 4.",
    tech=TECH + ": FipsRaceSim, coroutine scheduler over hooked synchronisation points, history oracle"),
 }
 
